@@ -467,6 +467,26 @@ def entry_points(rs, variant=0):
     add('periodogram_csd', alg.periodogram_csd, X)
     add('periodogram_csd/3d', alg.periodogram_csd, rs.randn(2, 2, N))
     add('periodogram_csd/1d', alg.periodogram_csd, x)
+    # optional precomputed arguments (transforms, autocorrelations, tapered spectra) are inputs like any other:
+    SkX = np.fft.fft(X)
+    add('periodogram/Sk', alg.periodogram, X, Sk=SkX.copy())
+    add('periodogram/Sk-twosided', alg.periodogram, X + 0j, Sk=SkX.copy(), sides='twosided')
+    add('periodogram_csd/Sk', alg.periodogram_csd, X, Sk=SkX.copy())
+    add('periodogram_csd/Sk-twosided', alg.periodogram_csd, X, Sk=SkX.copy(), sides='twosided')
+    add('periodogram_csd/Sk-unnormalized', alg.periodogram_csd, X, Sk=SkX.copy(), normalize=False)
+    rxx = ut.autocorr(x)[:5]
+    add('AR_est_YW/rxx', alg.AR_est_YW, x, 3, rxx=rxx.copy())
+    add('AR_est_LD/rxx', alg.AR_est_LD, x, 3, rxx=rxx.copy())
+    add('MAR_est_LWR/rxx', alg.MAR_est_LWR, X2, 2, rxx=ut.autocov_vector(np.ascontiguousarray(X2), nlags=3))
+    tsp = alg.tapered_spectra(np.ascontiguousarray(X), tapers)
+    add('adaptive_weights', ut.adaptive_weights, tsp[0].copy(), np.array([0.99, 0.98, 0.95]), sides='onesided')
+    add('jackknifed_sdf_variance', ut.jackknifed_sdf_variance, tsp[0].copy(), np.array([0.99, 0.98, 0.95]), sides='onesided', adaptive=False)
+    add('jackknifed_coh_variance', ut.jackknifed_coh_variance, tsp[0].copy(), tsp[1].copy(), np.array([0.99, 0.98, 0.95]), adaptive=False)
+    for fn in ('zscore', 'percent_change', 'autocov', 'autocorr'):
+        add('utils.' + fn, getattr(ut, fn), np.ascontiguousarray(X) + 5.0)
+    add('utils.crosscov', ut.crosscov, x, rs.randn(N))
+    add('utils.zero_pad', ut.zero_pad, np.ascontiguousarray(X), 96)
+    add('utils.unwrap_phases/copy-expected', lambda a: ut.unwrap_phases(a.copy()), rs.uniform(-3, 3, size=20))
     add('get_spectra', alg.get_spectra, big, method=dict(m64))
     add('get_spectra/mt', alg.get_spectra, X, method={'this_method': 'multi_taper_csd', 'Fs': 2 * np.pi})
     add('get_spectra/periodogram', alg.get_spectra, X, method={'this_method': 'periodogram_csd', 'Fs': 2 * np.pi})
@@ -611,6 +631,30 @@ def copies(tier, seed):
                 fails.append(Failure('axis-copy/original-changed', 'operating on a copy of a UniformTime changed the original', {'what': 'copies'}))
         elif snap(np.asarray(u.sampling_interval)) != snap(np.asarray(t.TimeArray(2, time_unit='ms'))):
             fails.append(Failure('axis-%s/original-changed' % nm, 'updating the interval object of a %s changed the original\'s interval' % nm, {'what': 'copies'}))
+    # operands that ARE (or alias) the axis' own attribute objects: `shift = u.t0; u -= shift` must leave `shift` alone
+    for unit in ('s', 'ms', 'ps'):
+        for opn, op in (('isub', operator.isub), ('iadd', operator.iadd)):
+            for attr in ('t0', 'sampling_interval', 'duration'):
+                a = t.UniformTime(t0=3, length=5, sampling_interval=2, time_unit=unit)
+                operand = getattr(a, attr)
+                b0 = snap(np.asarray(operand))
+                try:
+                    a = op(a, operand)
+                except Exception:  # noqa
+                    pass
+                if snap(np.asarray(operand)) != b0:
+                    fails.append(Failure('axis-%s/own-attribute-operand-changed' % opn,
+                                         'UniformTime %s with its own %s object as operand changed that operand' % (opn, attr), {'what': 'copies'}))
+        a = t.UniformTime(t0=3, length=5, sampling_interval=2, time_unit=unit)
+        first, ramp = a[0], t.TimeArray(np.asarray(a).copy(), time_unit='ps')
+        bf, br = snap(np.asarray(first)), snap(np.asarray(ramp))
+        a += ramp
+        a -= first
+        a *= 2
+        sl = a[1:4:2]
+        sl += first
+        if snap(np.asarray(first)) != bf or snap(np.asarray(ramp)) != br:
+            fails.append(Failure('axis-inplace/derived-operand-changed', 'in-place operations changed an operand derived from the axis', {'what': 'copies'}))
     ta = t.TimeArray([1, 2, 3], time_unit='ms')
     tb = t.TimeArray(ta)
     tb += 1
